@@ -5,6 +5,7 @@ import (
 	"encoding/binary"
 	"encoding/hex"
 	"fmt"
+	"math/big"
 	"math/rand"
 	"sort"
 	"strings"
@@ -67,6 +68,7 @@ type htlcEnv struct {
 	last     chain.M
 	dead     bool
 	initBal  int64
+	scale    *big.Int // magnitude tier: every amount on chain = model amount * scale (exact scaling)
 	cfgStr   string // effective configuration, attached to every logged event (self-describing replays)
 }
 
@@ -89,6 +91,7 @@ func newHTLCEnv(fl *drv.Flags) *htlcEnv {
 		idHex:    map[string]string{},
 		locks:    map[string]lockInfo{},
 		initBal:  fl.CfgInt("initbal", 5),
+		scale:    parseScale(fl.CfgStr("scale", "1")),
 	}
 	tsDefault := int64(0)
 	if e.compress > 1 {
@@ -99,7 +102,7 @@ func newHTLCEnv(fl *drv.Flags) *htlcEnv {
 	for _, u := range e.users {
 		s := "1000stake"
 		for _, d := range e.plain {
-			s += fmt.Sprintf(",%d%s", e.initBal, d)
+			s += fmt.Sprintf(",%s%s", e.amt(e.initBal).String(), d)
 		}
 		accts[u] = s
 	}
@@ -109,9 +112,9 @@ func newHTLCEnv(fl *drv.Flags) *htlcEnv {
 		period = fl.CfgInt("period", 100)
 	}
 	maxLock := fl.CfgInt("maxlock", 2*50)
-	e.cfgStr = fmt.Sprintf("users=%d;initbal=%d;limit1=%d;limit2=%d;tbl2=%d;fee2=%d;period=%d;maxlock=%d;compress=1;tsnow=0",
+	e.cfgStr = fmt.Sprintf("users=%d;initbal=%d;limit1=%d;limit2=%d;tbl2=%d;fee2=%d;period=%d;maxlock=%d;compress=1;tsnow=0;scale=%s",
 		len(e.users), e.initBal, fl.CfgInt("limit1", 4), fl.CfgInt("limit2", 5), fl.CfgInt("tbl2", 3), fl.CfgInt("fee2", 1),
-		period, maxLock)
+		period, maxLock, e.scale.String())
 	e.c = chain.New(chain.Options{
 		Accounts: accts,
 		MutateGenesis: func(c *chain.Chain, gs simapp.GenesisState) {
@@ -122,10 +125,10 @@ func newHTLCEnv(fl *drv.Flags) *htlcEnv {
 			ap := func(denom string, limit int64, tl bool, per, tbl, minA, maxA, fee int64) htlctypes.AssetParam {
 				return htlctypes.AssetParam{
 					Denom: denom,
-					SupplyLimit: htlctypes.SupplyLimit{Limit: sdkmath.NewInt(limit), TimeLimited: tl,
-						TimePeriod: time.Duration(per) * time.Second, TimeBasedLimit: sdkmath.NewInt(tbl)},
-					Active: true, DeputyAddress: dep, FixedFee: sdkmath.NewInt(fee),
-					MinSwapAmount: sdkmath.NewInt(minA), MaxSwapAmount: sdkmath.NewInt(maxA),
+					SupplyLimit: htlctypes.SupplyLimit{Limit: e.amt(limit), TimeLimited: tl,
+						TimePeriod: time.Duration(per) * time.Second, TimeBasedLimit: e.amt(tbl)},
+					Active: true, DeputyAddress: dep, FixedFee: e.amt(fee),
+					MinSwapAmount: e.amt(minA), MaxSwapAmount: e.amt(maxA),
 					MinBlockLock: htlctypes.MinTimeLock, MaxBlockLock: uint64(maxLock),
 				}
 			}
@@ -162,6 +165,76 @@ func newHTLCEnv(fl *drv.Flags) *htlcEnv {
 	}
 	c.Project = func(ctx sdk.Context) any { return e.project(ctx) }
 	return e
+}
+
+var bigOne = big.NewInt(1)
+
+func parseScale(sv string) *big.Int {
+	k, ok := new(big.Int).SetString(sv, 10)
+	if !ok || k.Sign() <= 0 {
+		panic("bad scale " + sv)
+	}
+	return k
+}
+
+// amt maps a model amount to the chain amount (exact scaling).
+func (e *htlcEnv) amt(v int64) sdkmath.Int {
+	return sdkmath.NewIntFromBigInt(new(big.Int).Mul(big.NewInt(v), e.scale))
+}
+
+// Magnitude strata (brief, round 5): scales chosen so that single amounts,
+// pairwise sums and sums of several values of the drivers (model values
+// 1..60, limits 3..12) straddle 2^31, 2^32, 2^53, 2^63, 2^64, 2^128, with
+// non-zero low bits.
+var scaleSets = map[string][]string{
+	"quick": {
+		"1073741825",              // 2^30+1: values 2^30..2^36 (cross 2^31, 2^32)
+		"1099511627781",           // 2^40+5: [2^32, 2^53)
+		"2251799813685251",        // 2^51+3: sums cross 2^53
+		"1000000000000000000",     // 10^18: limits 4e18..8e18 < 2^63 < 10e18, balances > 2^64
+		"2305843009213706297",     // 2^61+12345: limits 2^63.., sums of limit+amount cross 2^64 for limits >= 6
+		"2635249153387078802",     // (2^64-1)/7: 7 units = 2^64-2, 8 units wrap
+		"4611686018427387847",     // 2^62-57: 4 units = 2^64-228 (fits), 5 units >= 2^64
+		"6148914691236517205",     // (2^64-1)/3: 3 units = 2^64-1 (fits), 4 units >= 2^64
+		"9223372036854775817",     // 2^63+9: every amount >= 2^63, two units >= 2^64
+		"18446744073710786183",    // 2^64+1234567: everything in [2^64, 2^68)
+		"79228162514264337593543950343",           // 2^96+7
+		"42535295865117307932921825928971080753", // 2^125+54321: 4 units = 2^127, 8 units = 2^128
+	},
+}
+
+func init() {
+	scaleSets["thorough"] = append(append([]string{}, scaleSets["quick"]...),
+		"2147483659",                              // 2^31+11
+		"4294967311",                              // 2^32+15
+		"9007199254740993",                        // 2^53+1
+		"3074457345618258603",                     // (2^64)/6+..: 6 units just over 2^64
+		"3689348814741910323",                     // (2^64-1)/5
+		"170141183460469231731687303715884105757", // 2^127+29
+	)
+}
+
+// scalesOf returns the list of scales a driver run iterates over: cfg
+// scales=<set name> (one chain per scale), else the single cfg scale.
+func scalesOf(fl *drv.Flags) []string {
+	if name := fl.CfgStr("scales", ""); name != "" {
+		if set, ok := scaleSets[name]; ok {
+			return set
+		}
+		panic("unknown scale set " + name)
+	}
+	return []string{fl.CfgStr("scale", "1")}
+}
+
+func withScale(fl *drv.Flags, k string) *drv.Flags {
+	nf := *fl
+	nf.Cfg = map[string]string{}
+	for a, b := range fl.Cfg {
+		nf.Cfg[a] = b
+	}
+	nf.Cfg["scale"] = k
+	delete(nf.Cfg, "scales")
+	return &nf
 }
 
 func (e *htlcEnv) denoms() []string { return append(append([]string{}, e.plain...), e.assets...) }
@@ -258,6 +331,16 @@ func (e *htlcEnv) project(ctx sdk.Context) any {
 	k := c.K.HTLC
 	inexact := 0
 	sm := func(i sdkmath.Int) int64 {
+		if e.scale.Cmp(bigOne) != 0 {
+			// exact scaling: the logged value is amount / scale; a remainder means the
+			// code produced an amount that is not a multiple of the scale (counted as
+			// inexact -> clause C0x_ScaleExact), never silently rounded away
+			q, r := new(big.Int).QuoRem(i.BigInt(), e.scale, new(big.Int))
+			if r.Sign() != 0 {
+				inexact++
+			}
+			i = sdkmath.NewIntFromBigInt(q)
+		}
 		v, ok := chain.Small(i)
 		if !ok {
 			inexact++
@@ -362,7 +445,7 @@ func (e *htlcEnv) project(ctx sdk.Context) any {
 		"minLock": int64(htlctypes.MinTimeLock), "maxLock": int64(htlctypes.MaxTimeLock),
 		"blocked": e.blocked(),
 		"htlc":    htlcs, "q": queue, "sup": sup, "params": params, "bal": bal, "supply": supply,
-		"inexact": int64(inexact),
+		"inexact": int64(inexact), "scaleBits": int64(e.scale.BitLen()),
 	}
 }
 
@@ -392,7 +475,7 @@ func hexLower(s string) string {
 func htlcEvent(name string) chain.M {
 	return chain.M{"name": name, "who": "", "id": "", "to": "", "amt": chain.M{}, "sec": "", "lts": int64(0),
 		"ts": int64(0), "lock": int64(0), "transfer": false, "dt": int64(0), "n": int64(0), "params": chain.M{},
-		"ok": true, "panic": false, "halt": false}
+		"ok": true, "panic": false, "halt": false, "mag": ""}
 }
 
 // norm brings an abstract event read from JSON into the fixed record shape,
@@ -445,7 +528,7 @@ func (e *htlcEnv) coins(m chain.M) sdk.Coins {
 	}
 	sort.Strings(keys)
 	for _, d := range keys {
-		cs = append(cs, sdk.Coin{Denom: d, Amount: sdkmath.NewInt(m[d].(int64))})
+		cs = append(cs, sdk.Coin{Denom: d, Amount: e.amt(m[d].(int64))})
 	}
 	return cs
 }
@@ -515,10 +598,10 @@ func (e *htlcEnv) paramsMsg(ev chain.M) *htlctypes.MsgUpdateParams {
 		}
 		aps = append(aps, htlctypes.AssetParam{
 			Denom: d,
-			SupplyLimit: htlctypes.SupplyLimit{Limit: sdkmath.NewInt(p["limit"].(int64)), TimeLimited: p["timeLimited"].(bool),
-				TimePeriod: time.Duration(p["period"].(int64)) * time.Second, TimeBasedLimit: sdkmath.NewInt(p["tbl"].(int64))},
-			Active: p["active"].(bool), DeputyAddress: dep.String(), FixedFee: sdkmath.NewInt(p["fee"].(int64)),
-			MinSwapAmount: sdkmath.NewInt(p["minAmt"].(int64)), MaxSwapAmount: sdkmath.NewInt(p["maxAmt"].(int64)),
+			SupplyLimit: htlctypes.SupplyLimit{Limit: e.amt(p["limit"].(int64)), TimeLimited: p["timeLimited"].(bool),
+				TimePeriod: time.Duration(p["period"].(int64)) * time.Second, TimeBasedLimit: e.amt(p["tbl"].(int64))},
+			Active: p["active"].(bool), DeputyAddress: dep.String(), FixedFee: e.amt(p["fee"].(int64)),
+			MinSwapAmount: e.amt(p["minAmt"].(int64)), MaxSwapAmount: e.amt(p["maxAmt"].(int64)),
 			MinBlockLock: uint64(p["minLock"].(int64)), MaxBlockLock: uint64(p["maxLock"].(int64)),
 		})
 	}
@@ -578,6 +661,7 @@ func (e *htlcEnv) runBlock(dt int64, pending []chain.M, w *chain.TraceWriter) bo
 	for i, ev := range pending {
 		r := res.Txs[i]
 		ev["ok"], ev["panic"] = r.OK, r.Panic
+		ev["mag"] = e.magOf(ev)
 		st := r.State
 		if st == nil {
 			st = res.BeginState
@@ -590,6 +674,56 @@ func (e *htlcEnv) runBlock(dt int64, pending []chain.M, w *chain.TraceWriter) bo
 	e.logEv(w, htlcEvent("EndBlock"), end)
 	e.last = end
 	return true
+}
+
+// magOf classifies a limit check by magnitude (for the vacuity counters of
+// the magnitude tier): "sum64" when limit, supply and amount each fit 64 bits
+// but supply + amount does not — judged on the state before the event.
+func (e *htlcEnv) magOf(ev chain.M) string {
+	var d string
+	var a int64
+	claim := false
+	switch chain.Str(ev, "name") {
+	case "Create":
+		if !ev["transfer"].(bool) {
+			return ""
+		}
+		for k, v := range ev["amt"].(chain.M) {
+			d, a = k, v.(int64)
+		}
+	case "Claim":
+		c, ok := e.last["htlc"].(chain.M)[chain.Str(ev, "id")].(chain.M)
+		if !ok || c["dir"] != "in" || c["state"] != "open" {
+			return ""
+		}
+		for k, v := range c["amt"].(chain.M) {
+			d, a = k, v.(int64)
+		}
+		claim = true
+	default:
+		return ""
+	}
+	p, ok1 := e.last["params"].(chain.M)[d].(chain.M)
+	su, ok2 := e.last["sup"].(chain.M)[d].(chain.M)
+	if !ok1 || !ok2 {
+		return ""
+	}
+	if !claim && chain.Str(ev, "who") != p["deputy"] {
+		return ""
+	}
+	two64 := new(big.Int).Lsh(bigOne, 64)
+	fits := func(v int64) bool { return e.amt(v).BigInt().Cmp(two64) < 0 }
+	wraps := func(limit, supply int64) bool {
+		return fits(limit) && fits(supply) && fits(a) && !fits(supply+a)
+	}
+	base, tbase := su["cur"].(int64), su["tl"].(int64)
+	if !claim {
+		base, tbase = base+su["inc"].(int64), tbase+su["inc"].(int64)
+	}
+	if wraps(p["limit"].(int64), base) || (p["timeLimited"].(bool) && wraps(p["tbl"].(int64), tbase)) {
+		return "sum64"
+	}
+	return ""
 }
 
 // nextDue returns the smallest queued height in (h, h+n], or 0.
@@ -767,12 +901,19 @@ func htlcDriver(mode string, fl *drv.Flags) error {
 	switch mode {
 	case "replay":
 		for _, beh := range chain.ReadBehaviours(fl.In) {
-			htlcRun(fl, beh, w, fl.CfgInt("epilogue", 1) == 1)
+			ks := scalesOf(fl)
+			if len(beh) > 0 && chain.Str(beh[0], "cfg") != "" {
+				ks = ks[:1] // events cut from a recorded trace carry their own scale
+			}
+			for _, k := range ks {
+				htlcRun(withScale(fl, k), beh, w, fl.CfgInt("epilogue", 1) == 1)
+			}
 		}
 	case "random":
 		rng := rand.New(rand.NewSource(fl.Seed))
+		ks := scalesOf(fl)
 		for i := 0; i < fl.N; i++ {
-			htlcRandom(fl, rng, w)
+			htlcRandom(withScale(fl, ks[i%len(ks)]), rng, w)
 		}
 	default:
 		return fmt.Errorf("unknown mode %q", mode)
